@@ -3,7 +3,7 @@ From Coq Require Import List String.
 From VQ.Gen Require Import pat_vq_forward.
 Import ListNotations.
 Open Scope string_scope.
-Lemma pin_pat_vq_forward : pat_vq_forward =
+Definition pinned_pat_vq_forward : list (string * string) :=
   [("rearrange", "b d -> b 1 d");
    ("rearrange", "b c h w -> b (h w) c");
    ("rearrange", "b d n -> b n d");
@@ -23,4 +23,5 @@ Lemma pin_pat_vq_forward : pat_vq_forward =
    ("rearrange", "b 1 d -> b d");
    ("einx.where", "b n, b n d, b n d -> b n d");
    ("einx.where", "b n, b n ..., -> b n ...")].
+Lemma pin_pat_vq_forward : pat_vq_forward = pinned_pat_vq_forward.
 Proof. reflexivity. Qed.
